@@ -458,6 +458,10 @@ fn exec_op<'a>(warc: &Arc<World>, w: &'a World, _ix: usize, op: &Op, guards: &mu
         // poll the JoinHandle once with a no-op waker (a `now_or_never` probe): -5 = still pending
         "try_join" => {
             use std::future::Future;
+            // polling a JoinHandle is not a scheduling point of its own; make the probe a visible operation
+            if !w.atomics.is_empty() {
+                let _ = w.atomics[0].load(Ordering::SeqCst);
+            }
             let slot = w.fhandles[op.v as usize].get();
             let mut h = slot.take().expect("try_join: no handle");
             let waker = noop_waker();
